@@ -22,8 +22,10 @@ ASSUMPTIONS = [
     "A-SSL: OpenSSL honours the SSL_read/SSL_write retry contract, emits application data only after the handshake, and "
     "its records are confidential (the check only sees that a random 32-byte marker never appears in the raw stream)",
     "A-TCP: loopback is a lossless FIFO",
-    "handshake completion itself is NOT a theorem (no HsEngine composition was proved): it rests on the per-call theorems "
-    "plus the pairing matrix run here (complete in the thorough tier)",
+    "handshake completion is a theorem only for the restriction handshake_completes_partial (both endpoints synchronous, "
+    "timeout 0, round-robin polling schedule, reference engine Hs.engine, healthy channel with arbitrary read segmentation); "
+    "async endpoints, unlimited/limited timeouts, other call orders, short/refused writes and the agreement of the reference "
+    "engine with OpenSSL rest on the pairing matrix run here (complete in the thorough tier)",
 ]
 TRUSTED = ["system OpenSSL 3 (libssl/libcrypto)", "link-time interposition of SSL_read/SSL_write_ex/BIO_get_data in the harness"]
 ALL_TAGS = ["send.unlimited", "send.zero", "send.limited", "recv.unlimited", "recv.zero", "recv.limited",
@@ -172,11 +174,18 @@ LEVEL_TEXT = ("Machine-checked theorems about the library's TLS glue (Read/Write
               "sticky; the POLLOUT protocol invariant (queued data is always armed or remembered as suppressed, restored after the "
               "handshake); Write's count/retry-same-buffer discipline; Read's bounds; no stale WANT_READ/WANT_WRITE across calls and no "
               "round-limit cut of a long Send after the handshake. The three pre-fix variants (319faf2, e3dfab5, ee81033) are kept as "
-              "Legacy configurations with proved violations. Completion of the handshake for all pairings is NOT a theorem "
-              "(the HsEngine composition was not reached); it is established by the exhaustive implementation matrix only. Tied to /repo on every run: the real sockets run the pairing matrix against real OpenSSL; "
+              "Legacy configurations with proved violations. Completion of the handshake is proved for the real glue model composed "
+              "twice over two FIFO channels with a reference handshake engine (handshake_completes_partial: both endpoints synchronous, "
+              "timeout 0, polling schedule [c.Send, s.Receive, s.Send, c.Receive], every flight size, payload, receive size and wire "
+              "segmentation; explicit bound 2(k1+k2+k3+3) rounds; no call throws; decreasing measure round_progress), followed by the payload phase "
+              "for the call order that exposed F7 (send_after_idle_receive_flows) and the refutation of the pre-319faf2 glue in the same "
+              "composition (legacy_stall_state_reached, legacy_polling_schedule_stalls: handshake done, channels empty for ever); for the other "
+              "pairings / timeout modes / call orders it is established by the exhaustive implementation matrix only. Tied to /repo on every run: the real sockets run the pairing matrix against real OpenSSL; "
               "every SSL_read/SSL_write_ex answer, BIO callback and poll/send/recv is replayed into the model, which must make the "
               "same calls and return the same results; Spec.C18 is evaluated on the raw bytes and API results.")
-LEVEL_NOTE = ("Trusted: Lean kernel; axioms propext/Quot.sound/Classical.choice; the hand-written model (correspondence on the "
+LEVEL_NOTE = ("handshake_completes is proved ONLY in the restricted form handshake_completes_partial (sync/sync, timeout 0, polling "
+              "schedule, reference engine, healthy channel, any read segmentation); the pre-ee81033 variant is refuted at the single-endpoint "
+              "level only (the healthy channel of the composition never refuses a write). Trusted: Lean kernel; axioms propext/Quot.sound/Classical.choice; the hand-written model (correspondence on the "
               "generated matrix only); harness, vos shim and the OpenSSL interposers. Confidentiality and the TLS protocol itself are "
               "OpenSSL's (assumed); handshake completion for async endpoints and blocking timeouts rests on the pollout_protocol "
               "invariant plus the exhaustive implementation matrix, not on a single liveness theorem. Open known finding F8 "
